@@ -46,6 +46,62 @@ type sBatch struct {
 	Late     []int   `json:"late"`    // participants who answer only after the batch finished (C07); others never
 	Tape     []int   `json:"tape"`    // choices among enabled actions
 	ViaAPI   bool    `json:"via_api"` // propose through the node's API (only for pure explicit / single-range batches)
+	// Faulty: signers whose answer carries unusable partial signatures (a broken or hostile airgapped machine). The
+	// answer is a genuine result file of the participant's machine in which only the signature shares are replaced,
+	// submitted through the participant's own node, so it is a correctly signed board message of that participant.
+	Faulty []sFault `json:"faulty,omitempty"`
+}
+
+type sFault struct {
+	Who  int    `json:"who"`
+	Kind string `json:"kind"` // junk | flip | swapped | index | empty
+}
+
+func (b sBatch) faultOf(i int) string {
+	for _, f := range b.Faulty {
+		if f.Who == i {
+			return f.Kind
+		}
+	}
+	return ""
+}
+
+// corruptShares replaces the partial signatures of a result according to kind.
+func corruptShares(pr *requests.SigningProposalBatchPartialSignRequests, kind string, n int) {
+	ps := pr.PartialSigns
+	switch kind {
+	case "swapped":
+		if len(ps) > 1 { // genuine shares, attached to the wrong messages
+			first := ps[0].Sign
+			for k := 0; k+1 < len(ps); k++ {
+				ps[k].Sign = ps[k+1].Sign
+			}
+			ps[len(ps)-1].Sign = first
+			return
+		}
+		kind = "junk"
+	}
+	for k := range ps {
+		switch kind {
+		case "junk":
+			ps[k].Sign = []byte("junk signature")
+		case "empty":
+			ps[k].Sign = nil
+		case "flip":
+			s := append([]byte{}, ps[k].Sign...)
+			if len(s) > 0 {
+				s[len(s)-1] ^= 1
+			}
+			ps[k].Sign = s
+		case "index": // a genuine share value filed under another participant's share index
+			s := append([]byte{}, ps[k].Sign...)
+			if len(s) > 2 {
+				idx := (int(s[0])<<8 | int(s[1]) + 1) % n
+				s[0], s[1] = byte(idx>>8), byte(idx)
+			}
+			ps[k].Sign = s
+		}
+	}
 }
 
 type sPlan struct {
@@ -209,10 +265,36 @@ func pendingSigningOp(w *world.World, i int, batchID string) *types.Operation {
 }
 
 // answerSigning lets operator i answer its signing operation for the batch and records what the machine returned.
-func answerSigning(w *world.World, i int, bo *batchObs) (bool, error) {
+func answerSigning(w *world.World, i int, bo *batchObs, fault string) (bool, error) {
 	op := pendingSigningOp(w, i, bo.BatchID)
 	if op == nil {
 		return false, nil
+	}
+	if fault != "" {
+		file, err := w.Nodes[i].OperationFile(op.ID)
+		if err != nil {
+			return false, fmt.Errorf("getOperation: %w", err)
+		}
+		resFile, err := w.Machines[i].Process(file)
+		if err != nil {
+			return false, fmt.Errorf("airgapped: %w", err)
+		}
+		var res types.Operation
+		if err := json.Unmarshal(resFile, &res); err != nil || len(res.ResultMsgs) == 0 {
+			return false, fmt.Errorf("result file: %v", err)
+		}
+		var pr requests.SigningProposalBatchPartialSignRequests
+		if err := json.Unmarshal(res.ResultMsgs[0].Data, &pr); err != nil {
+			return false, fmt.Errorf("result message: %w", err)
+		}
+		corruptShares(&pr, fault, len(w.Nodes))
+		res.ResultMsgs[0].Data, _ = json.Marshal(pr)
+		resFile, _ = json.Marshal(res)
+		if err := w.Nodes[i].SubmitResult(resFile); err != nil {
+			return false, fmt.Errorf("submit: %w", err)
+		}
+		bo.Answered[i] = true
+		return true, nil
 	}
 	res, err := w.Answer(i, op)
 	if res != nil && len(res.ResultMsgs) > 0 {
@@ -259,6 +341,16 @@ func runSigningCase(fx *world.Fixture, p sPlan, root string) *sigObs {
 				perr = w.ProposeBatch(b.Proposer, fx.Round, data)
 			}
 			if perr != nil {
+				stuck := false
+				for _, pb := range p.Batches[:bi] {
+					stuck = stuck || len(pb.Faulty) > 0
+				}
+				if stuck && strings.Contains(perr.Error(), "required FSM state") {
+					// an earlier batch with unusable shares may legitimately still be waiting for its t-th good answer:
+					// the API refuses a new proposal, the case ends here
+					obs.Batches = obs.Batches[:bi]
+					break
+				}
 				obs.Err = fmt.Errorf("batch %d: proposing through the API failed: %w", bi, perr)
 				return obs
 			}
@@ -318,7 +410,7 @@ func runSigningCase(fx *world.Fixture, p sPlan, root string) *sigObs {
 			a := acts[c%len(acts)]
 			if a.kind == "poll" {
 				w.Poll(a.i, a.k)
-			} else if _, err := answerSigning(w, a.i, bo); err != nil {
+			} else if _, err := answerSigning(w, a.i, bo, b.faultOf(a.i)); err != nil {
 				obs.Err = fmt.Errorf("batch %d: operator %d: %w", bi, a.i, err)
 				return obs
 			}
@@ -328,7 +420,7 @@ func runSigningCase(fx *world.Fixture, p sPlan, root string) *sigObs {
 			progress := w.PollAll()
 			for _, i := range b.Signers {
 				if !bo.Answered[i] {
-					ok, err := answerSigning(w, i, bo)
+					ok, err := answerSigning(w, i, bo, b.faultOf(i))
 					if err != nil {
 						obs.Err = fmt.Errorf("batch %d: operator %d: %w", bi, i, err)
 						return obs
@@ -344,7 +436,7 @@ func runSigningCase(fx *world.Fixture, p sPlan, root string) *sigObs {
 		}
 		// late participants answer an already finished batch
 		for _, i := range b.Late {
-			if _, err := answerSigning(w, i, bo); err != nil {
+			if _, err := answerSigning(w, i, bo, b.faultOf(i)); err != nil {
 				// a refused late answer is the node's decision (the operation may be gone); record and go on
 				continue
 			}
